@@ -61,6 +61,27 @@ var solvers = []solverSpec{
 	}, nil},
 }
 
+// seeded variants, used only when the first round did not decide an obligation: solver heuristics are sensitive to
+// incidental details of the query text (declaration order, symbol numbering), so an obligation that is provable may
+// time out for one numbering and be proved at once for another; different random seeds explore that variation.
+var seededSolvers = []solverSpec{
+	{"z3-new#1", func(f string, t int) []string {
+		return []string{"z3-new", fmt.Sprintf("-T:%d", t), "smt.random_seed=1", "sat.random_seed=1", f}
+	}, nil},
+	{"z3-new#2", func(f string, t int) []string {
+		return []string{"z3-new", fmt.Sprintf("-T:%d", t), "smt.random_seed=7", "sat.random_seed=7", "smt.arith.random_initial_value=true", f}
+	}, nil},
+	{"z3-new#3", func(f string, t int) []string {
+		return []string{"z3-new", fmt.Sprintf("-T:%d", t), "smt.random_seed=42", "sat.random_seed=42", "smt.relevancy=0", f}
+	}, nil},
+	{"z3#1", func(f string, t int) []string {
+		return []string{"z3", fmt.Sprintf("-T:%d", t), "smt.random_seed=3", "sat.random_seed=3", f}
+	}, nil},
+	{"cvc5#1", func(f string, t int) []string {
+		return []string{"cvc5", "--lang=smt2", fmt.Sprintf("--tlimit=%d", t*1000), "--produce-models", "--seed=5", f}
+	}, nil},
+}
+
 // runSolver runs one solver on a query file, returns first-line verdict, output.
 func runSolver(ctx context.Context, sp solverSpec, file string, timeoutS int) (string, string, float64) {
 	t0 := time.Now()
@@ -116,15 +137,20 @@ func Discharge(o *Obligation, scratch string, timeoutS int, only string) {
 	}
 	ctx, cancel := context.WithCancel(context.Background())
 	defer cancel()
-	ch := make(chan res, len(solvers))
+	ch := make(chan res, len(solvers)+len(seededSolvers))
 	n := 0
-	for _, sp := range solvers {
+	list := solvers
+	if only == "+seeds" {
+		list = append(append([]solverSpec{}, solvers...), seededSolvers...)
+		only = ""
+	}
+	for _, sp := range list {
 		if only != "" && sp.name != only {
 			continue
 		}
 		q := o.Query
 		hdr := "(set-option :produce-models true)\n"
-		if sp.name == "cvc5" {
+		if strings.HasPrefix(sp.name, "cvc5") {
 			if strings.Contains(q, "(lambda ") {
 				continue
 			}
@@ -183,6 +209,9 @@ func Discharge(o *Obligation, scratch string, timeoutS int, only string) {
 }
 
 func getModel(o *Obligation, base, solver string, timeoutS int) string {
+	if i := strings.Index(solver, "#"); i >= 0 {
+		solver = solver[:i]
+	}
 	for _, sp := range solvers {
 		if sp.name != solver {
 			continue
